@@ -579,9 +579,11 @@ pub fn families(tier: Tier, _variant: &str, mode: Mode) -> Vec<Family> {
                                     let v: Value = sonic_rs::from_str(&doc).map_err(|e| format!("rejected: {}", e.to_string().lines().next().unwrap_or("")))?;
                                     let s = sonic_rs::to_string(&v).map_err(|e| e.to_string())?;
                                     let again = refjson::parse_doc(s.as_bytes(), RMode::Decode).map_err(|r| format!("output not well-formed: {:?}", r.reason))?;
+                                    // (member order is the business of the other families: the
+                                    // sort_keys build reorders)
                                     let (mut a, mut b) = (String::new(), String::new());
-                                    root.dump(&mut a);
-                                    again.dump(&mut b);
+                                    norm_dump(&root, true, &mut a);
+                                    norm_dump(&again, true, &mut b);
                                     if a != b {
                                         return Err("serialized text denotes another tree".to_string());
                                     }
